@@ -538,6 +538,19 @@ def concreteWs : WsSvc Nat Msg Reply where
   call := fun n p m => (n + 1, transform ((wsTag p).getD []) m)
   encode := fun _ => some []      -- the reply bytes are compared in decoded form (see `Drv`)
 
+/-- "slow" as bytes: the handler sleeps longer than the read time-out of the clients named `q…` -/
+def sSlow : Bytes := [115, 108, 111, 119]
+
+/-- Path `C14Keep` of the service: its handler *retains* the `B` field of its argument and answers
+with the `B` it retained from the previous request (a handler may keep what it was given: the
+decoded argument must not share memory with a later request). Service state: invocation count and
+the retained bytes. -/
+def keepWs : WsSvc (Nat × Bytes) Msg Reply where
+  registered := fun p => p = "C14Keep"
+  decode := fun _ buf => decodeMsg buf
+  call := fun st _ m => ((st.1 + 1, m.b), transform [47, 75, 101, 101, 112] { m with b := st.2 })   -- "/Keep"
+  encode := fun _ => some []
+
 /-! ### JSON bodies as `encoding/json` sees them for a struct with fields A, S, B -/
 
 inductive Fld where
@@ -611,6 +624,8 @@ structure State where
   /-- raw websocket connections (clients `r…`, which pipeline their messages on one connection
   and never redial) that the server has closed: the read loop `wsConn` reads nothing more -/
   closed : List String := []
+  /-- what the handler of path `C14Keep` retained -/
+  kept : Bytes := []
 
 def init : State := {}
 
@@ -664,6 +679,19 @@ def resourceId (s : String) : Option Nat :=
 /-- the websocket reply of the concrete service is compared in decoded form: recompute the reply
 value that `encode` stands for -/
 def wsShow (st : State) (path : String) (buf : Bytes) : State × String :=
+  if path = "C14Keep" then
+    let r := processClientRequest keepWs (st.calls, st.kept) path buf
+    let txt := match r.2 with
+      | .reply _ =>
+        match decodeMsg buf with
+        | .ok m => (match transform [47, 75, 101, 101, 112] { m with b := st.kept } with
+          | .ret rep => "ok " ++ showReply rep
+          | _ => "model-inconsistent")
+        | .error _ => "model-inconsistent"
+      | .close w true => "close 1002 " ++ whyName w
+      | .close _ false => "close 1006 other"
+    ({ st with calls := r.1.1, kept := r.1.2 }, txt)
+  else
   let r := processClientRequest concreteWs st.calls path buf
   let txt := match r.2 with
     | .reply _ =>
@@ -675,6 +703,14 @@ def wsShow (st : State) (path : String) (buf : Bytes) : State × String :=
     | .close w true => "close 1002 " ++ whyName w
     | .close _ false => "close 1006 other"
   ({ st with calls := r.1 }, txt)
+
+/-- a client named `q…` gives up reading after a time-out shorter than the sleep of a request with
+`S = "slow"`: it gets no reply although the handler runs (`Client.Send`, websocket_client.go:209-216) -/
+def slowFor (client path : String) (buf : Bytes) : Bool :=
+  client.startsWith "q" &&
+  (match decodePath path buf with
+   | .ok m => m.s == sSlow
+   | .error _ => false)
 
 /-- routing by `http.ServeMux` (net/http, observed not modelled): patterns of int/slice GET
 handlers end in `/` (a request without the last element is redirected), the others are exact;
@@ -712,7 +748,10 @@ def step (s : State) (toks : List String) : State × String :=
           -- the close reason is not observed on pipelined connections (the frame races with a reset)
           let r := wsShow s path b
           if r.2.startsWith "close" then ({ r.1 with closed := client :: r.1.closed }, "close") else r
-      else wsShow s path b   -- `Client.Send` redials after an error: always a live connection
+      else
+        -- `Client.Send` redials after an error: always a live connection
+        let r := wsShow s path b
+        if slowFor client path b && r.2.startsWith "ok" then (r.1, "close - timeout") else r
     | none => (s, "bad-op")
   | ["rest", _thr, _client, method, ctype, res, tail, body] =>
     match restShow s method ctype res tail body with
